@@ -10,5 +10,5 @@ INIT Init
 NEXT NextR
 VIEW MCView
 INVARIANTS TypeOK
-PROPERTIES PA_JobsImmutable PA_IdUnique PA_ExactlyOneCall PA_CallIsStoredCall PA_CallerAppended PA_FailureEnqueuesNothing
+PROPERTIES PA_JobsImmutable PA_IdUnique PA_ExactlyOneCall PA_CallIsStoredCall PA_CallerAppended PA_FailureEnqueuesNothing PA_QueryIsStored PA_DiscardedIsInvisible
 CHECK_DEADLOCK FALSE
